@@ -4,6 +4,7 @@ import (
 	"context"
 	"errors"
 	"fmt"
+	"strings"
 	"time"
 
 	bigbuff "github.com/joeycumines/go-bigbuff"
@@ -16,7 +17,7 @@ import (
 func init() {
 	core.Register(&core.Property{
 		ID: "C18",
-		Rule: "lock-step reference loop on scripted outcome sequences: k in 0..8 plain errors followed by every ending {success, fatal error nested 1-3 deep, cancellation before the first call, cancellation inside the call in flight (which then errs / succeeds / fails fatally), cancellation inside the wait} x rates {<=0, 1ns, 1us, 300ms, 2.5s, 4.294967298s = the largest rate whose largest delay fits a Duration} (complete), x context kinds {WithCancel, WithCancelCause with a custom cause, deadline ten minutes ahead that is never reached, child of a context cancelled with a cause} (the error to report is ctx.Err(), never the cause, and a far deadline changes nothing), " +
+		Rule: "lock-step reference loop on scripted outcome sequences: k in 0..8 plain errors followed by every ending {success, fatal error nested 1-3 deep, fatal error whose chain holds a second fatal wrapper under a plain annotation, cancellation before the first call, cancellation inside the call in flight (which then errs / succeeds / fails fatally), cancellation inside the wait} x rates {<=0, 1ns, 1us, 300ms, 2.5s, 4.294967298s = the largest rate whose largest delay fits a Duration} (complete), x context kinds {WithCancel, WithCancelCause with a custom cause, deadline ten minutes ahead that is never reached, child of a context cancelled with a cause, nil context (never cancelled)} (the error to report is ctx.Err(), never the cause, and a far deadline changes nothing), " +
 			"each returned function invoked twice in a row (the attempt counter restarts), plus long scripts of 40 plain errors (cap at 31); delays observed through VerifRetryObserve (observers call through to the real calcExponentialRetry / waitDuration; most scenarios skip the real wait = virtual time); " +
 			"real-wait family: elapsed heartbeats for tiny delays, prompt return when cancelled during a long wait, and a context with a real 5-35 ms deadline (the function may return only once ctx.Err() is non-nil, with DeadlineExceeded). oracle: number and order of calls, result and error identity (innermost error, not fatal), delay a whole number of slots in [0, 2^c-1] x rate (300ms when rate<=0), wait requested with exactly that delay, no call after cancellation was observed. " +
 			"non-trivial = at least one retry (k>=1) happened; distinct = distinct scripts",
@@ -41,6 +42,9 @@ func (m c18MultiErr) Error() string { return fmt.Sprintf("%d errors", len(m)) }
 
 var errC18Base = errors.New("c18 fatal base error")
 
+// errC18Layered is a marker for the expectation of the fatal-layered ending (never returned by anything).
+var errC18Layered = errors.New("c18 layered marker")
+
 type c18Obs struct {
 	rate, d time.Duration
 	c       uint32
@@ -52,10 +56,10 @@ type c18Script struct {
 	rate    time.Duration
 	twice   bool
 	invoked int
-	ctxKind int // 0 WithCancel, 1 WithCancelCause (custom cause), 2 WithDeadline ten minutes ahead (never reached), 3 child of a context cancelled with a cause
+	ctxKind int // 4 = nil context (documented: treated as one that is never cancelled); 0 WithCancel, 1 WithCancelCause (custom cause), 2 WithDeadline ten minutes ahead (never reached), 3 child of a context cancelled with a cause
 }
 
-var c18CtxKinds = []string{"cancel", "cancel-cause", "far-deadline", "child-of-cause"}
+var c18CtxKinds = []string{"cancel", "cancel-cause", "far-deadline", "child-of-cause", "nil-context"}
 
 var errC18Cause = errors.New("c18 custom cancellation cause")
 
@@ -63,6 +67,8 @@ var errC18Cause = errors.New("c18 custom cancellation cause")
 // the error the retry function has to report is ctx.Err() (never the cause).
 func c18Context(kind int) (context.Context, context.CancelFunc) {
 	switch kind {
+	case 4:
+		return context.Background(), func() {} // (stands in for the nil context inside the script's own bookkeeping)
 	case 1:
 		ctx, cc := context.WithCancelCause(context.Background())
 		return ctx, func() { cc(errC18Cause) }
@@ -92,6 +98,9 @@ func runC18Script(c *core.Ctx, s c18Script, maxSlot map[int]int64) {
 	if s.ending == "cancel-in-wait" && s.k == 0 {
 		return // no wait to cancel in
 	}
+	if s.ctxKind == 4 && strings.HasPrefix(s.ending, "cancel") {
+		return // a nil context cannot be cancelled
+	}
 	ctx, cancel := c18Context(s.ctxKind)
 	defer cancel()
 	if s.ending == "cancel-before" {
@@ -118,6 +127,9 @@ func runC18Script(c *core.Ctx, s c18Script, maxSlot map[int]int64) {
 			return resultOf(calls), nil
 		case "fatal1", "fatal2", "fatal3":
 			return resultOf(calls), nestFatal(errC18Base, int(s.ending[5]-'0'))
+		case "fatal-layered":
+			// marked fatal by two layers with a plain annotation in between: the OUTERMOST wrapper is a fatal one
+			return resultOf(calls), bigbuff.FatalError(fmt.Errorf("layer: %w", bigbuff.FatalError(errC18Base)))
 		case "cancel-in-call-err":
 			cancel()
 			return resultOf(calls), errC18Plain
@@ -135,7 +147,11 @@ func runC18Script(c *core.Ctx, s c18Script, maxSlot map[int]int64) {
 		}
 		return resultOf(calls), errC18Plain
 	}
-	fn := bigbuff.ExponentialRetry(ctx, s.rate, op)
+	rctx := ctx
+	if s.ctxKind == 4 {
+		rctx = nil
+	}
+	fn := bigbuff.ExponentialRetry(rctx, s.rate, op)
 	invocations := 1
 	if s.twice {
 		invocations = 2
@@ -174,6 +190,8 @@ func runC18Script(c *core.Ctx, s c18Script, maxSlot map[int]int64) {
 			wantRes = resultOf(s.k + 1)
 		case "fatal1", "fatal2", "fatal3", "cancel-in-call-fatal":
 			wantRes, wantErr = resultOf(s.k+1), errC18Base
+		case "fatal-layered":
+			wantRes, wantErr = resultOf(s.k+1), errC18Layered
 		case "cancel-before":
 			wantCalls, wantRetries, wantErr = 0, 0, context.Canceled
 		case "cancel-in-call-err":
@@ -189,7 +207,13 @@ func runC18Script(c *core.Ctx, s c18Script, maxSlot map[int]int64) {
 		if calls != wantCalls {
 			c.Violate("call-count", "operation called %d times, want %d; %s", calls, wantCalls, desc)
 		}
-		if res != wantRes || err != wantErr {
+		if wantErr == errC18Layered {
+			// the loop ended with that call (call count, below); which of the inner layers are stripped is not asserted,
+			// only that an error of that call is handed back with its result and that it is not a fatal wrapper (below)
+			if res != wantRes || err == nil || err == context.Canceled || err == context.DeadlineExceeded {
+				c.Violate("result", "returned (%v, %v), want (%v, the error that call produced without its outer fatal wrapper); %s", res, err, wantRes, desc)
+			}
+		} else if res != wantRes || err != wantErr {
 			c.Violate("result", "returned (%v, %v), want (%v, %v); %s", res, err, wantRes, wantErr, desc)
 		}
 		if err != nil && bigbuff.VerifIsFatal(err) {
@@ -230,7 +254,7 @@ func runC18Script(c *core.Ctx, s c18Script, maxSlot map[int]int64) {
 func c18Scripted(c *core.Ctx) {
 	rates := []time.Duration{-5, time.Nanosecond, time.Microsecond, 300 * time.Millisecond, 2500 * time.Millisecond, c18MaxRate}
 	rate := rates[c.Index]
-	endings := []string{"success", "fatal1", "fatal2", "fatal3", "cancel-before", "cancel-in-call-err", "cancel-in-call-ok", "cancel-in-call-fatal", "cancel-in-wait"}
+	endings := []string{"success", "fatal1", "fatal2", "fatal3", "fatal-layered", "cancel-before", "cancel-in-call-err", "cancel-in-call-ok", "cancel-in-call-fatal", "cancel-in-wait"}
 	maxSlot := map[int]int64{}
 	n := 0
 	for k := 0; k <= 8; k++ {
@@ -244,7 +268,7 @@ func c18Scripted(c *core.Ctx) {
 		}
 	}
 	c.Op("script", n)
-	c.ExhaustiveFamily("k<=8 plain errors x 9 endings x {once,twice} (x5 repetitions) per rate", n)
+	c.ExhaustiveFamily("k<=8 plain errors x 10 endings x {once,twice} (x5 repetitions) per rate", n)
 	c.Count("max_slot_k1", int(maxSlot[1]))
 	c.Count("max_slot_k3", int(maxSlot[3]))
 	c.Nontrivial()
@@ -288,7 +312,11 @@ func c18RealWait(c *core.Ctx) {
 	if mode == "tiny-wait-elapses" {
 		rate = time.Microsecond
 	}
-	fn := bigbuff.ExponentialRetry(ctx, rate, func() (interface{}, error) {
+	rctx := ctx
+	if mode == "tiny-wait-elapses" && c.Rng.IntN(2) == 0 {
+		rctx = nil // documented: a nil context is one that is never cancelled (the real waits run with it)
+	}
+	fn := bigbuff.ExponentialRetry(rctx, rate, func() (interface{}, error) {
 		calls++
 		if mode == "tiny-wait-elapses" && calls == 4 {
 			return "ok", nil
